@@ -1,6 +1,7 @@
 SPECIFICATION Spec
 CONSTANTS Family = "unfold"
           MaxEdits = 2
+          UnivKinds = {"noisy"}
           WithGt = TRUE
 INVARIANT UnfoldIsDenote
 INVARIANT ErrorOnlyWhenDenoted
